@@ -2,31 +2,39 @@
   C12 — aws-chunked decoding is independent of stream fragmentation.
 
   Theorems about `Model.ChunkSigned` / `Model.ChunkUnsigned` (the models of the two readers in
-  s3api/utils) against `Spec.Chunked.Valid`, for EVERY hash family (SHA-256, HMAC and the trailing
-  checksum are function parameters) and all three encodings.
+  s3api/utils as of /repo commit cf70120) against `Spec.Chunked.Valid`, for EVERY hash family
+  (SHA-256, HMAC and the trailing checksum are function parameters) and all three encodings.
 
-  On the unchanged tree the full statements are FALSE for the signed reader (a chunk header after
-  the first that is split across two reads is mis-parsed; a bare io.EOF of the underlying stream is
-  handed through as a clean end) and `decode_sound_full` is also false for the unsigned reader (EOF
-  right after a chunk-size line).  They are kept as `def … : Prop`, refuted in `Vgw/Open/C12.lean`,
-  and the parts that hold are proved here:
+    signed_fragmentation_independent   ARBITRARY bytes (valid or not): the run over any list of
+                                       deliveries = the run that hands the same bytes over in one Read
+                                       (decoded bytes AND error value), as long as the reader's 1024-byte
+                                       limit on a stashed partial header does not strike
+    decode_complete                    a valid stream decodes to exactly its payload, then EOF, for
+                                       every partition into reads / every schedule of buffer sizes
+                                       (signed, signed+trailer, unsigned+trailer) — full strength
+    truncation_rejected_signed         every proper truncation of a valid signed stream is refused
+                                       under every fragmentation (io.EOF after the last bytes)
+    signed_eof_delivery_independent    io.EOF with the last bytes or after them: same bytes, same outcome
+                                       (only errInvalidChunkFormat / io.ErrUnexpectedEOF may swap)
+    signed_outcome_independent         both together: any two ways of delivering the same bytes
+    signed_never_panics                arbitrary bytes, arbitrary deliveries: no run ends in a panic
+    valid_functional, valid_prefix_free, truncation_invalid, encode_valid, oracle_on_valid   spec level
+    signed_fuel_suffices, unsigned_fuel_suffices   totality of the models
 
-    decode_complete_unsigned          every fragmentation, every schedule of non-empty buffers
-    decode_complete_partial_signed    the stream arrives in ONE read (the hypothesis excludes every
-                                      cut; the harness shows that cuts inside the first header and
-                                      inside chunk data are harmless too and that exactly the cuts
-                                      strictly inside a later header break the reader)
-    valid_functional, valid_prefix_free   a stream determines its payload; no valid stream is a
-                                      proper prefix of another (so every truncation is invalid)
+  Not proved (tested only, by the oracle on every observation of the harness): soundness for
+  arbitrary invalid streams (wrong signatures, malformed bytes).
 -/
 import Vgw.Lemmas.ChunkSigned
 import Vgw.Lemmas.ChunkUnsigned
 import Vgw.Lemmas.ChunkSpec
 import Vgw.Lemmas.Fuel
+import Vgw.Lemmas.ChunkEof
+import Vgw.Lemmas.ChunkNoPanic
 namespace Vgw.Props.C12
 open Vgw Vgw.Spec.Chunked Vgw.Model
 open Vgw.Lemmas.ChunkSigned (signedCfg SignedHyps variantOf)
 open Vgw.Lemmas.ChunkUnsigned (ucfg UnsignedHyps)
+open Vgw.Lemmas.ChunkMerge (flat lastFlag Good StashOK)
 
 /-- `ds` (fragment, delivered-together-with-io.EOF) is a way the underlying reader can hand the
 stream `s` to the signed reader: non-empty fragments in order, io.EOF at most with the last one
@@ -37,26 +45,177 @@ def Partition (s : Bytes) (ds : List (Bytes × Bool)) : Prop :=
 instance (s : Bytes) (ds : List (Bytes × Bool)) : Decidable (Partition s ds) := by
   unfold Partition; infer_instance
 
-/-- 2^48: above it `make([]byte, n)` panics -/
-def allocBound : Nat := 281474976710656
+/-- 5 GiB: the largest chunk the unsigned reader buffers (`maxUnsignedChunkSize`) -/
+def chunkLimit : Nat := 5368709120
 
-/-- **C12, completeness, full strength**: a valid stream decodes to exactly its payload, then EOF,
-for every partition into read fragments and every schedule of (non-empty) destination buffers. -/
-def decode_complete_full : Prop :=
-  (∀ (P : Params) (tr : Bool) (L : Nat), SignedHyps P tr L → ∀ s p, Valid P (variantOf tr) s p →
-      ∀ ds, Partition s ds → ChunkSigned.run (signedCfg P tr L) P.seedSig ds = (p, .eof)) ∧
-  (∀ (P : Params), UnsignedHyps P → ∀ s p, Valid P .unsignedTrailer s p → p.length ≤ allocBound →
-      ∀ (frags : List Bytes) (caps : Nat → Nat), frags.flatten = s → (∀ i, 0 < caps i) →
-        ChunkUnsigned.run (ucfg P) frags caps = (p, .eof))
+/-! ### the signed reader does not see how the stream is cut into reads -/
 
-/-- **C12, soundness, full strength**: whatever the reader hands out followed by a clean EOF, for
-some fragmentation, is the payload of a valid stream — in particular nothing truncated, malformed
-or wrongly signed is ever accepted. -/
-def decode_sound_full : Prop :=
-  (∀ (P : Params) (tr : Bool) (L : Nat), SignedHyps P tr L → ∀ s p ds, Partition s ds →
-      ChunkSigned.run (signedCfg P tr L) P.seedSig ds = (p, .eof) → Valid P (variantOf tr) s p) ∧
-  (∀ (P : Params), UnsignedHyps P → ∀ s p (frags : List Bytes) (caps : Nat → Nat), frags.flatten = s →
-      (∀ i, 0 < caps i) → ChunkUnsigned.run (ucfg P) frags caps = (p, .eof) → Valid P .unsignedTrailer s p)
+/-- **Fragmentation independence of the signed reader, for arbitrary bytes.**  Whatever the bytes
+are — a valid stream, a truncated one, one with wrong signatures, garbage — and however they are cut
+into non-empty deliveries (io.EOF with the last one or afterwards), the run hands out the same bytes
+and ends with the same error value as the run that delivers everything in one `Read`.
+`StashOK` is the reader's own resource limit: a partial chunk header waiting in the stash never
+exceeds 1024 bytes (`Open.C12.stash_limit_matters`: the limit is real). -/
+theorem signed_fragmentation_independent (cfg : ChunkSigned.Cfg) (seedSig : Bytes) (ds : List (Bytes × Bool))
+    (hne : ds ≠ []) (hgood : Good ds) (hmax : ((flat ds).length : Int) ≤ ChunkSigned.intMax)
+    (hst : StashOK cfg (ChunkSigned.init seedSig) ds) :
+    ChunkSigned.run cfg seedSig ds = ChunkSigned.run cfg seedSig [(flat ds, lastFlag ds)] :=
+  Lemmas.ChunkMerge.run_merge cfg ds.length ds (Nat.le_refl _) _ [] hne hgood hmax hst
+
+/-- the two error values an invalid stream can be refused with depending on how io.EOF arrives -/
+def EofErrPair (a b : ChunkSigned.Status) : Prop :=
+  (a = .err .invalidFormat ∧ b = .err .unexpectedEOF) ∨ (a = .err .unexpectedEOF ∧ b = .err .invalidFormat)
+
+/-- **io.EOF together with the last bytes or on its own afterwards** (arbitrary bytes): the bytes
+handed out are the same and the outcome is the same — a stream that ends inside a chunk header is
+refused with errInvalidChunkFormat in one case and io.ErrUnexpectedEOF in the other. -/
+theorem signed_eof_delivery_independent (cfg : ChunkSigned.Cfg) (seedSig s : Bytes) (hs : s ≠ [])
+    (hmax : (s.length : Int) ≤ ChunkSigned.intMax) :
+    (ChunkSigned.run cfg seedSig [(s, true)]).1 = (ChunkSigned.run cfg seedSig [(s, false)]).1 ∧
+    ((ChunkSigned.run cfg seedSig [(s, true)]).2 = (ChunkSigned.run cfg seedSig [(s, false)]).2 ∨
+     EofErrPair (ChunkSigned.run cfg seedSig [(s, true)]).2 (ChunkSigned.run cfg seedSig [(s, false)]).2) := by
+  have := Lemmas.ChunkEof.oneshot_eof_mode cfg (ChunkSigned.init seedSig) s hs hmax
+  exact ⟨this.1, this.2.imp id (fun h => Or.inl h)⟩
+
+/-- **The outcome does not depend on the delivery at all** (arbitrary bytes): two lists of
+deliveries of the same wire bytes — cut differently, io.EOF attached or not — hand out the same
+bytes and both accept or both refuse (with the same error value up to the swap above). -/
+theorem signed_outcome_independent (cfg : ChunkSigned.Cfg) (seedSig : Bytes) (ds ds' : List (Bytes × Bool))
+    (hne : ds ≠ []) (hne' : ds' ≠ []) (hgood : Good ds) (hgood' : Good ds') (hflat : flat ds = flat ds')
+    (hmax : ((flat ds).length : Int) ≤ ChunkSigned.intMax)
+    (hst : StashOK cfg (ChunkSigned.init seedSig) ds) (hst' : StashOK cfg (ChunkSigned.init seedSig) ds') :
+    (ChunkSigned.run cfg seedSig ds).1 = (ChunkSigned.run cfg seedSig ds').1 ∧
+    ((ChunkSigned.run cfg seedSig ds).2 = (ChunkSigned.run cfg seedSig ds').2 ∨
+     EofErrPair (ChunkSigned.run cfg seedSig ds).2 (ChunkSigned.run cfg seedSig ds').2) := by
+  rw [signed_fragmentation_independent cfg seedSig ds hne hgood hmax hst,
+    signed_fragmentation_independent cfg seedSig ds' hne' hgood' (hflat ▸ hmax) hst', ← hflat]
+  have hs : flat ds ≠ [] := by
+    cases ds with
+    | nil => exact absurd rfl hne
+    | cons d ds => have := hgood.1 d (by simp); simp [flat, this]
+  have h := signed_eof_delivery_independent cfg seedSig (flat ds) hs hmax
+  cases h1 : lastFlag ds <;> cases h2 : lastFlag ds'
+  · exact ⟨rfl, Or.inl rfl⟩
+  · refine ⟨h.1.symm, ?_⟩
+    rcases h.2 with e | ⟨a, b⟩ | ⟨a, b⟩
+    · exact Or.inl e.symm
+    · exact Or.inr (Or.inr ⟨b, a⟩)
+    · exact Or.inr (Or.inl ⟨b, a⟩)
+  · exact h
+  · exact ⟨rfl, Or.inl rfl⟩
+
+/-- **The signed reader never panics**: arbitrary bytes, arbitrary deliveries. -/
+theorem signed_never_panics (cfg : ChunkSigned.Cfg) (seedSig : Bytes) (ds : List (Bytes × Bool)) :
+    (ChunkSigned.run cfg seedSig ds).2 ≠ .panic :=
+  Lemmas.ChunkNoPanic.runFrom_no_panic cfg ds _ [] (Lemmas.ChunkNoPanic.init_inv cfg seedSig)
+
+theorem flat_take_drop (ds : List (Bytes × Bool)) (k : Nat) : flat (ds.take k) ++ flat (ds.drop k) = flat ds := by
+  simp only [flat, ← List.flatten_append, ← List.map_append, List.take_append_drop]
+
+theorem flat_ne_nil (ds : List (Bytes × Bool)) (hne : ds ≠ []) (hg : ∀ d ∈ ds, d.1 ≠ []) : flat ds ≠ [] := by
+  cases ds with
+  | nil => exact absurd rfl hne
+  | cons d ds =>
+    have := hg d (by simp)
+    simp [flat, this]
+
+/-- the stash limit is never reached on (prefixes of) valid streams -/
+theorem stashOK_of_prefix (P : Params) (tr : Bool) (L : Nat) (H : SignedHyps P tr L) (cs : List Chunk) (hz : Bytes)
+    (hwf : WF cs hz) (ds : List (Bytes × Bool)) (G : Bytes)
+    (hs : flat ds ++ G = renderSigned P tr P.seedSig [] cs hz) (hgood : Good ds)
+    (hmax : ((flat ds).length : Int) ≤ ChunkSigned.intMax) :
+    StashOK (signedCfg P tr L) (ChunkSigned.init P.seedSig) ds := by
+  intro k hk0 hkl _
+  have hF : flat (ds.take k) ≠ [] := flat_ne_nil _ (by
+    intro e
+    rcases List.take_eq_nil_iff.1 e with h | h
+    · omega
+    · subst h; simp at hkl) (fun d hd => hgood.1 d (List.mem_of_mem_take hd))
+  have hD : flat (ds.drop k) ≠ [] := flat_ne_nil _ (by
+    intro e
+    have := List.drop_eq_nil_iff.1 e
+    omega) (fun d hd => hgood.1 d (List.mem_of_mem_drop hd))
+  have hsplit := flat_take_drop ds k
+  have hl := congrArg List.length hsplit
+  simp only [List.length_append] at hl
+  exact (Lemmas.ChunkSigned.read_prefix P tr L H cs hz hwf (flat (ds.take k)) (flat (ds.drop k) ++ G) hF (by simp [hD])
+    (by rw [← List.append_assoc, hsplit]; exact hs) (by omega) _).2
+
+/-- **C12, completeness, signed encodings, full strength**: a valid signed (or signed-with-trailer)
+stream decodes to exactly its payload, then a clean EOF, for EVERY partition of the wire bytes into
+reads (and so for every schedule of destination buffers: a smaller buffer only cuts finer). -/
+theorem decode_complete_signed (P : Params) (tr : Bool) (L : Nat) (H : SignedHyps P tr L) (s p : Bytes)
+    (hv : Valid P (variantOf tr) s p) (hlen : s.length ≤ chunkBound) (ds : List (Bytes × Bool))
+    (hpart : Partition s ds) : ChunkSigned.run (signedCfg P tr L) P.seedSig ds = (p, .eof) := by
+  obtain ⟨cs, hz, hwf, rfl, rfl⟩ := hv
+  rw [Lemmas.ChunkSigned.render_variantOf] at hpart hlen
+  obtain ⟨hflat, hne, hflags⟩ := hpart
+  have hfl : flat ds = renderSigned P tr P.seedSig [] cs hz := hflat
+  have hdsne : ds ≠ [] := by
+    intro e; subst e
+    have := Lemmas.ChunkSigned.renderSigned_length P tr cs P.seedSig [] hz
+    rw [← hfl] at this; simp [flat] at this
+  have hmax : ((flat ds).length : Int) ≤ ChunkSigned.intMax := by
+    rw [hfl]; unfold ChunkSigned.intMax; unfold chunkBound at hlen; omega
+  rw [signed_fragmentation_independent _ _ ds hdsne ⟨hne, hflags⟩ hmax
+    (stashOK_of_prefix P tr L H cs hz hwf ds [] (by simpa using hfl) ⟨hne, hflags⟩ hmax), hfl]
+  obtain ⟨st', h⟩ := Lemmas.ChunkSigned.read_whole P tr L H cs hz hwf (lastFlag ds)
+    (renderSigned P tr P.seedSig [] cs hz).length
+  simp [ChunkSigned.run, ChunkSigned.runFrom, h]
+
+theorem read_end_not_eof (cfg : ChunkSigned.Cfg) (st : ChunkSigned.State) :
+    (ChunkSigned.read cfg st [] true 0).2.status ≠ .eof := by
+  unfold ChunkSigned.read
+  simp only [List.length_nil]
+  split
+  · split
+    · simp
+    · rename_i h1 h2; exact absurd h1 (by simpa using h2)
+  · simp
+
+/-- **Every proper truncation of a valid signed stream is refused, however it is fragmented**
+(io.EOF delivered after the last bytes): the run never ends in a clean EOF. -/
+theorem truncation_rejected_signed (P : Params) (tr : Bool) (L : Nat) (H : SignedHyps P tr L) (s p : Bytes)
+    (hv : Valid P (variantOf tr) s p) (hlen : s.length ≤ chunkBound) (k : Nat) (hk : k < s.length)
+    (ds : List (Bytes × Bool)) (hpart : Partition (s.take k) ds) (hnoeof : ∀ d ∈ ds, d.2 = false) :
+    (ChunkSigned.run (signedCfg P tr L) P.seedSig ds).2 ≠ .eof := by
+  obtain ⟨cs, hz, hwf, rfl, rfl⟩ := hv
+  rw [Lemmas.ChunkSigned.render_variantOf] at hpart hlen hk
+  obtain ⟨hflat, hne, hflags⟩ := hpart
+  have hfl : flat ds = (renderSigned P tr P.seedSig [] cs hz).take k := hflat
+  by_cases hds : ds = []
+  · subst hds
+    simp only [ChunkSigned.run, ChunkSigned.runFrom]
+    have := read_end_not_eof (signedCfg P tr L) (ChunkSigned.init P.seedSig)
+    generalize ChunkSigned.read (signedCfg P tr L) (ChunkSigned.init P.seedSig) [] true 0 = r at this ⊢
+    obtain ⟨st', out, s⟩ := r
+    cases s <;> simp_all
+  · have hG : (renderSigned P tr P.seedSig [] cs hz).drop k ≠ [] := by
+      intro e; have := congrArg List.length e; simp at this; omega
+    have hsplit : flat ds ++ (renderSigned P tr P.seedSig [] cs hz).drop k = renderSigned P tr P.seedSig [] cs hz := by
+      rw [hfl, List.take_append_drop]
+    have hmax : ((flat ds).length : Int) ≤ ChunkSigned.intMax := by
+      rw [hfl]; simp only [List.length_take]; unfold ChunkSigned.intMax; unfold chunkBound at hlen; omega
+    rw [signed_fragmentation_independent _ _ ds hds ⟨hne, hflags⟩ hmax
+      (stashOK_of_prefix P tr L H cs hz hwf ds _ hsplit ⟨hne, hflags⟩ hmax)]
+    have hlf : lastFlag ds = false := by
+      unfold lastFlag
+      cases hl : ds.getLast? with
+      | none => rfl
+      | some d => exact hnoeof d (List.mem_of_getLast? hl)
+    rw [hlf]
+    have hF : flat ds ≠ [] := flat_ne_nil ds hds hne
+    have hp := Lemmas.ChunkSigned.read_prefix P tr L H cs hz hwf (flat ds) _ hF hG hsplit hmax (flat ds).length
+    simp only [ChunkSigned.run, ChunkSigned.runFrom]
+    generalize ChunkSigned.read (signedCfg P tr L) (ChunkSigned.init P.seedSig) (flat ds) false (flat ds).length = r at hp ⊢
+    obtain ⟨st1, out1, s1⟩ := r
+    simp only at hp
+    rw [hp.1]
+    simp only
+    have := read_end_not_eof (signedCfg P tr L) st1
+    generalize ChunkSigned.read (signedCfg P tr L) st1 [] true 0 = r2 at this ⊢
+    obtain ⟨st2, out2, s2⟩ := r2
+    cases s2 <;> simp_all
 
 /-! ### unsigned reader: complete for every fragmentation and buffer schedule -/
 
@@ -81,45 +240,42 @@ theorem payload_le_render (P : Params) (cs : List Chunk) :
     simp [payloadOf, renderUnsigned] at this ⊢
     omega
 
-/-- **The unsigned reader is fragmentation-independent on valid streams.**  (`bufio.Reader` is the
-trusted parameter that makes the fragmentation of the underlying reads invisible; what varies is
-the schedule of destination buffer sizes.) -/
-theorem decode_complete_unsigned (P : Params) (H : UnsignedHyps P) (s p : Bytes)
-    (hv : Valid P .unsignedTrailer s p) (hlen : p.length ≤ allocBound)
-    (frags : List Bytes) (caps : Nat → Nat) (hfr : frags.flatten = s) (hcaps : ∀ i, 0 < caps i) :
-    ChunkUnsigned.run (ucfg P) frags caps = (p, .eof) := by
-  obtain ⟨cs, hz, ⟨hwf, hhz, _⟩, rfl, rfl⟩ := hv
+/-- **The unsigned reader decodes every valid stream, for every fragmentation and every schedule of
+non-empty destination buffers**; side condition: no chunk exceeds the 5 GiB the reader is willing to
+buffer.  (`bufio.Reader` is the trusted parameter that makes the fragmentation of the underlying
+reads invisible.) -/
+theorem decode_complete_unsigned_chunks (P : Params) (H : UnsignedHyps P) (cs : List Chunk) (hz : Bytes)
+    (hwf : WF cs hz) (hlim : ∀ c ∈ cs, c.2.length ≤ chunkLimit)
+    (frags : List Bytes) (caps : Nat → Nat) (hfr : frags.flatten = render P .unsignedTrailer cs hz)
+    (hcaps : ∀ i, 0 < caps i) : ChunkUnsigned.run (ucfg P) frags caps = (payloadOf cs, .eof) := by
   have hok : Lemmas.ChunkUnsigned.ChunksOK cs := by
     intro c hc
-    refine ⟨(hwf c hc).1, (hwf c hc).2, ?_⟩
-    have := payload_chunk_le cs c hc
-    unfold allocBound at hlen; omega
+    exact ⟨(hwf.1 c hc).1, (hwf.1 c hc).2, hlim c hc⟩
   unfold ChunkUnsigned.run
   rw [hfr]
-  have := Lemmas.ChunkUnsigned.runFrom_spec P H hz hhz caps hcaps (payloadOf cs).length cs
+  have := Lemmas.ChunkUnsigned.runFrom_spec P H hz hwf.2.1 caps hcaps (payloadOf cs).length cs
     (ChunkUnsigned.init (render P .unsignedTrailer cs hz)) [] []
     (2 * (render P .unsignedTrailer cs hz).length + 2) 0 (by simp [ChunkUnsigned.init])
     (by have := payload_le_render P cs [] hz; simp only [render]; omega) hok ⟨rfl, rfl⟩
   simpa [ChunkUnsigned.init] using this
 
-/-! ### signed reader: complete when the stream arrives in one read -/
-
-/-- **The signed reader decodes every valid stream that arrives in a single read** (signed and
-signed-with-trailer encodings; io.EOF together with the bytes or on its own afterwards). -/
-theorem decode_complete_partial_signed (P : Params) (tr : Bool) (L : Nat) (H : SignedHyps P tr L) (s p : Bytes)
-    (hv : Valid P (variantOf tr) s p) (eof : Bool) :
-    ChunkSigned.run (signedCfg P tr L) P.seedSig [(s, eof)] = (p, .eof) := by
+theorem decode_complete_unsigned (P : Params) (H : UnsignedHyps P) (s p : Bytes)
+    (hv : Valid P .unsignedTrailer s p) (hlen : p.length ≤ chunkLimit)
+    (frags : List Bytes) (caps : Nat → Nat) (hfr : frags.flatten = s) (hcaps : ∀ i, 0 < caps i) :
+    ChunkUnsigned.run (ucfg P) frags caps = (p, .eof) := by
   obtain ⟨cs, hz, hwf, rfl, rfl⟩ := hv
-  rw [Lemmas.ChunkSigned.render_variantOf]
-  obtain ⟨st', h⟩ := Lemmas.ChunkSigned.read_whole P tr L H cs hz hwf eof
-    (renderSigned P tr P.seedSig [] cs hz).length
-  simp [ChunkSigned.run, ChunkSigned.runFrom, h]
+  exact decode_complete_unsigned_chunks P H cs hz hwf
+    (fun c hc => Nat.le_trans (payload_chunk_le cs c hc) hlen) frags caps hfr hcaps
 
-/-- a single fragment is a partition -/
-theorem partition_single (s : Bytes) (hs : s ≠ []) (eof : Bool) : Partition s [(s, eof)] := by
-  refine ⟨by simp, ?_, ?_⟩
-  · intro d hd; simp at hd; subst hd; exact hs
-  · intro d hd; simp at hd
+/-- **C12, completeness, full strength, all three encodings.** -/
+theorem decode_complete :
+    (∀ (P : Params) (tr : Bool) (L : Nat), SignedHyps P tr L → ∀ s p, Valid P (variantOf tr) s p →
+      s.length ≤ chunkBound → ∀ ds, Partition s ds → ChunkSigned.run (signedCfg P tr L) P.seedSig ds = (p, .eof)) ∧
+    (∀ (P : Params), UnsignedHyps P → ∀ s p, Valid P .unsignedTrailer s p → p.length ≤ chunkLimit →
+      ∀ (frags : List Bytes) (caps : Nat → Nat), frags.flatten = s → (∀ i, 0 < caps i) →
+        ChunkUnsigned.run (ucfg P) frags caps = (p, .eof)) :=
+  ⟨fun P tr L H s p hv hl ds hp => decode_complete_signed P tr L H s p hv hl ds hp,
+   fun P H s p hv hl frags caps hf hc => decode_complete_unsigned P H s p hv hl frags caps hf hc⟩
 
 /-! ### spec level: a stream determines its payload; valid streams are prefix-free -/
 
@@ -170,11 +326,10 @@ theorem oracle_never_admits_crash (P : Params) (v : Variant) (s : Bytes) : admit
   unfold admitsB
   split <;> simp_all
 
-/-! ### totality of the models (no_panic-style)
+/-! ### totality of the models
 
 The models are total functions; the only artefact is the fuel of the recursive parts, and it is
-never exhausted.  `Status.panic` on the other hand IS reachable (negative / oversized chunk sizes,
-`Open/C12.lean`): it is the Go runtime panic, not a modelling artefact. -/
+never exhausted. -/
 
 /-- `Read` of the signed reader never runs out of fuel -/
 theorem signed_fuel_suffices (cfg : ChunkSigned.Cfg) (st : ChunkSigned.State) (frag : Bytes) (isEOF : Bool) (cap : Nat) :
@@ -189,6 +344,7 @@ theorem signed_fuel_suffices (cfg : ChunkSigned.Cfg) (st : ChunkSigned.State) (f
          else { st with isEOF := isEOF }) (frag.drop st.chunkDataLeft.toNat) (by simp; omega)
       generalize ChunkSigned.parseAndRemove cfg _ _ _ = r at this ⊢
       obtain ⟨st', out, s⟩ := r
+      unfold ChunkSigned.prepend
       cases s <;> simp_all
   · split <;> simp
 
@@ -203,13 +359,6 @@ theorem unsigned_fuel_suffices (cfg : ChunkUnsigned.Cfg) (st : ChunkUnsigned.Sta
     · exact Lemmas.Fuel.loop_no_fuel cfg cap _ st _ (by omega)
   · exact Lemmas.Fuel.loop_no_fuel cfg cap _ st _ (by omega)
 
-/-- on valid streams the readers do not panic (corollaries of completeness) -/
-theorem unsigned_no_panic_on_valid (P : Params) (H : UnsignedHyps P) (s p : Bytes)
-    (hv : Valid P .unsignedTrailer s p) (hlen : p.length ≤ allocBound)
-    (frags : List Bytes) (caps : Nat → Nat) (hfr : frags.flatten = s) (hcaps : ∀ i, 0 < caps i) :
-    (ChunkUnsigned.run (ucfg P) frags caps).2 ≠ .panic := by
-  rw [decode_complete_unsigned P H s p hv hlen frags caps hfr hcaps]; simp
-
 /-! ### non-vacuity: the hypotheses of every theorem are met by non-trivial inputs
 
 A toy hash family keeps the examples kernel-checkable (`decide`); the harness runs the same shapes
@@ -220,8 +369,10 @@ def toy : Params :=
   { sha := fun _ => [], hmac := fun _ _ => [1], csum := fun _ => [], key := [], amzDate := [], scope := [],
     seedSig := [], trailerName := [120] }
 
-theorem toy_signed_hyps : SignedHyps toy false 0 :=
-  ⟨by intro _ _; simp [toy], by simp [toy], by decide, by intro _; rfl⟩
+theorem toy_signed_hyps (tr : Bool) : SignedHyps toy tr 0 :=
+  ⟨by intro _ _; simp [toy], by simp [toy], by decide, by intro _; rfl,
+   by intro prev d acc; simp [toy, chunkSig, trailerSig, checksumB64, hexEncode, b64Encode, maxSizeDigits, sigIntro,
+        trailerSigIntro, ChunkSigned.maxHeaderSize]⟩
 
 theorem toy_unsigned_hyps : UnsignedHyps toy :=
   ⟨⟨120, [], rfl, by decide⟩, by decide, by decide⟩
@@ -231,10 +382,7 @@ def s1 : Bytes :=
   [49] ++ sigIntro ++ [48, 49] ++ [13, 10] ++ [65] ++ [13, 10] ++ [48] ++ sigIntro ++ [48, 49] ++ [13, 10] ++ [13, 10]
 
 theorem s1_valid : Valid toy (variantOf false) s1 [65] :=
-  ⟨[([49], [65])], [48], ⟨by decide, by decide, by decide⟩, by decide, by decide⟩
-
-theorem toy_signed_hyps_tr : SignedHyps toy true 0 :=
-  ⟨by intro _ _; simp [toy], by simp [toy], by decide, by intro _; rfl⟩
+  ⟨[([49], [65])], [48], ⟨by decide, by decide, by decide, by decide, by decide⟩, by decide, by decide⟩
 
 /-- payload "ABC" in chunks of 2 + 1, unsigned with trailer -/
 def u3 : Bytes := encode toy .unsignedTrailer [65, 66, 67] [2]
@@ -246,17 +394,55 @@ example : ChunkUnsigned.run (ucfg toy) [u3.take 5, u3.drop 5] (fun i => i % 3 + 
 -- (test) the same run evaluated by the kernel
 example : ChunkUnsigned.run (ucfg toy) [u3.take 5, u3.drop 5] (fun i => i % 3 + 1) = ([65, 66, 67], .eof) := by decide
 
-example : ChunkSigned.run (signedCfg toy false 0) toy.seedSig [(s1, true)] = ([65], .eof) :=
-  decode_complete_partial_signed toy false 0 toy_signed_hyps s1 [65] s1_valid true
+/-- `s1` cut inside its first header, inside the final header (after the CR of its leading CRLF) and
+inside the final signature; io.EOF with the last bytes -/
+def ds1 : List (Bytes × Bool) :=
+  [(s1.take 7, false), ((s1.drop 7).take 17, false), ((s1.drop 24).take 10, false), (s1.drop 34, true)]
+
+theorem ds1_partition : Partition s1 ds1 := by decide
+
+example : ChunkSigned.run (signedCfg toy false 0) toy.seedSig ds1 = ([65], .eof) :=
+  decode_complete_signed toy false 0 (toy_signed_hyps false) s1 [65] s1_valid (by decide) ds1 ds1_partition
+
+-- (test) the same run evaluated by the kernel
+example : ChunkSigned.run (signedCfg toy false 0) toy.seedSig ds1 = ([65], .eof) := by decide
 
 /-- payload "ABC" in chunks of 1 + 2, signed with trailer -/
 def t3 : Bytes := encode toy .signedTrailer [65, 66, 67] [1]
 
-example : ChunkSigned.run (signedCfg toy true 0) toy.seedSig [(t3, false)] = ([65, 66, 67], .eof) :=
-  decode_complete_partial_signed toy true 0 toy_signed_hyps_tr t3 [65, 66, 67]
-    (encode_valid toy .signedTrailer _ _ (by decide)) false
+example : ChunkSigned.run (signedCfg toy true 0) toy.seedSig [(t3.take 30, false), (t3.drop 30, false)] = ([65, 66, 67], .eof) :=
+  decode_complete_signed toy true 0 (toy_signed_hyps true) t3 [65, 66, 67]
+    (encode_valid toy .signedTrailer _ _ (by decide)) (by decide) _ (by decide)
 
-example : Partition s1 [(s1, true)] := partition_single s1 (by decide) true
+-- garbage, too, is treated alike however it is cut (here: rejected alike)
+example : ChunkSigned.run (signedCfg toy false 0) [] [([49, 59, 99], false), ([0, 0], true)] =
+    ChunkSigned.run (signedCfg toy false 0) [] [([49, 59, 99, 0, 0], true)] :=
+  signed_fragmentation_independent _ _ _ (by decide) (by unfold Good; decide) (by decide) (by
+    intro k hk0 hkl
+    have : k = 1 := by simp at hkl; omega
+    subst this
+    decide)
+
+example (ds : List (Bytes × Bool)) (h : Partition (s1.take 30) ds) (hn : ∀ d ∈ ds, d.2 = false) :
+    (ChunkSigned.run (signedCfg toy false 0) toy.seedSig ds).2 ≠ .eof :=
+  truncation_rejected_signed toy false 0 (toy_signed_hyps false) s1 [65] s1_valid (by decide) 30 (by decide) ds h hn
+
+example : (ChunkSigned.run (signedCfg toy false 0) toy.seedSig [(s1.take 30, true)]).1 =
+    (ChunkSigned.run (signedCfg toy false 0) toy.seedSig [(s1.take 30, false)]).1 :=
+  (signed_eof_delivery_independent _ _ _ (by decide) (by decide)).1
+
+example : (ChunkSigned.run (signedCfg toy false 0) toy.seedSig ds1).1 =
+    (ChunkSigned.run (signedCfg toy false 0) toy.seedSig [(s1, false)]).1 :=
+  (signed_outcome_independent _ _ ds1 [(s1, false)] (by decide) (by decide) (by unfold Good; decide) (by unfold Good; decide)
+    (by decide) (by decide)
+    (stashOK_of_prefix toy false 0 (toy_signed_hyps false) [([49], [65])] [48]
+      ⟨by decide, by decide, by decide, by decide, by decide⟩ ds1 [] (by decide) (by unfold Good; decide) (by decide))
+    (by intro k h0 hl; simp at hl; omega)).1
+
+-- a negative chunk size, a header split behind a CR, garbage: no panic
+example : (ChunkSigned.run (signedCfg toy false 0) [] [([45, 49, 59, 99], false), ([13], false), ([10, 0, 255], true)]).2 ≠ .panic :=
+  signed_never_panics _ _ _
+
 example (p : Bytes) (h : Valid toy (variantOf false) s1 p) : p = [65] := valid_functional toy _ s1 p [65] h s1_valid
 example (p : Bytes) : ¬ Valid toy (variantOf false) (s1 ++ [13, 10]) p :=
   fun h => absurd (valid_prefix_free toy _ s1 [13, 10] [65] p s1_valid h) (by decide)
